@@ -714,6 +714,7 @@ int
 ncclose(int cdfid)
 {
     NC *handle;
+    int status = 0;
 
     cdf_routine_name = "ncclose";
 
@@ -741,7 +742,9 @@ ncclose(int cdfid)
     if (handle->file_type == HDF_FILE)
         hdf_close(handle);
 
-    NC_free_cdf(handle); /* calls fclose */
+    /* calls fclose; a failure to flush and close the file must reach the caller */
+    if (NC_free_cdf(handle) == FAIL)
+        status = -1;
 
     _cdfs[cdfid] = NULL; /* reset pointer */
 
@@ -755,7 +758,7 @@ ncclose(int cdfid)
             fprintf(stderr, "unable to reset _cdfs list\n");
             return -1;
         }
-    return 0;
+    return status;
 }
 
 int
